@@ -418,6 +418,7 @@ inline void assign_weights(Rng &r, GraphSpec &g, const GenOpts &o, bool regular_
     int scheme;
     if (tie) scheme = (int) r.below(3);               // 0 unit, 1 {1,2}, 2 {1,2,3}
     else scheme = 3 + (int) r.below(o.int_only ? 3 : 5); // 3 small<=20, 4 <=10^4, 5 powers of two, 6 dyadic, 7 dyadic small set
+    if (!tie && r.chance(0.06)) scheme = 8;           // 8 large magnitudes (still exactly summable): narrowing to int / float shows
     for (auto &e : g.edges) {
         switch (scheme) {
         case 0: e.w = 1; break;
@@ -427,6 +428,7 @@ inline void assign_weights(Rng &r, GraphSpec &g, const GenOpts &o, bool regular_
         case 4: e.w = r.range(1, 10000); break;
         case 5: e.w = 1LL << r.below(11); break;
         case 6: e.w = r.range(1, 4096); break;
+        case 8: e.w = o.int_only ? r.range(100000, 400000) : r.range(1LL << 33, 1LL << 40); break;
         default: e.w = r.range(1, 6); break;
         }
     }
